@@ -130,6 +130,9 @@ func c16CarCases(seed int64) []c16CarCase {
 		c16CarCase{Name: "one-block", NTargets: 4, Opts: cargen.Opts{Epoch: 0, Seed: seed + 2, NSlots: 1, MaxEntries: 1, MaxTx: 2}},
 		c16CarCase{Name: "subsets-interleaved", NTargets: 10, Opts: cargen.Opts{Epoch: 7, Seed: seed + 3, NSlots: 24, SkipOneIn: 4, MaxEntries: 3, MaxTx: 3, SubsetEvery: 3, RewardsOneIn: 2, MultiFrameOneIn: 3, MaxFrames: 12, VoteOneIn: 4, FailOneIn: 5, V0OneIn: 4}},
 		c16CarCase{Name: "big-sections-sha512", NTargets: 10, Opts: cargen.Opts{Epoch: 700, Seed: seed + 4, NSlots: 12, MaxEntries: 2, MaxTx: 3, BigOneIn: 3, RootSha512: true, RewardsOneIn: 3, MultiFrameOneIn: 2, MaxFrames: 60, LegacyFnvOneIn: 3}},
+		// blocks that own more objects than the accumulator's 5 000-slot group buffer (one of them exactly one
+		// more than twice that)
+		c16CarCase{Name: "huge-blocks", NTargets: 4, Opts: cargen.Opts{Epoch: 2, Seed: seed + 8, NSlots: 3, MaxEntries: 2, MaxTx: 3, ExactTx: 16000, VoteOneIn: 4, FailOneIn: 5}},
 		c16CarCase{Name: "empty-blocks-orphans", NTargets: 8, Opts: cargen.Opts{Epoch: 3, Seed: seed + 5, NSlots: 30, EmptyBlockOneIn: 2, MaxEntries: 2, MaxTx: 1, TinyOneIn: 2, TrailingJunkFrames: 3, LastSlot: true}},
 	)
 	nRandom := ev.Pick(14, 150)
